@@ -257,6 +257,10 @@ func (g *chainGen) makeBlock(p *gNode, kind int) (aBlock, bool) {
 					}
 				}
 			}
+			// now and then spend what the transaction just before this one created
+			if last := len(pool) - 1; inBlock[pool[last].o] && r.Chance(1, 3) {
+				j = last
+			}
 			if inBlock[pool[j].o] {
 				g.chains++
 			}
